@@ -26,7 +26,7 @@ def run(ctx):
     ]
     ctx.lean(props=["Props.C11"], drivers=["drv_c11"])
     ctx.harness("./cmd/c11")
-    ctx.diff(area="errs", driver="drv_c11", n={"quick": 100000, "thorough": 1500000}, stateful=True,
+    ctx.diff(area="errs", driver="drv_c11", n={"quick": 100000, "thorough": 1500000}, stateful=True, timeout=240,
              trivial=lambda l, o: False, tagger=_tag,
              theorem="C11.append_items / append_nil_iff / append_args_unchanged / count_eq / wrapped_errors_eq / wrap_* "
                      "(model = spec); impl != model on this history (every variable is re-observed after every call)")
